@@ -288,7 +288,11 @@ Returns:
             llod_val = llod_values[vi]
             ulod_flag = ulod_flags[vi]
             ulod_val = ulod_values[vi]
-            vals = MaskedArray(dat * scale, mask=(dat == miss),
+            # line 12 declares codes for the dependent variables only: a
+            # value of the independent variable (the first column) is a
+            # value, also when it equals the first variable's code
+            vals = MaskedArray(dat * scale,
+                               mask=((dat == miss) if vi > 0 else False),
                                fill_value=miss)
             scale = scales[vi] = 1  # Set to 1 after applying
             tmpvar = self.variables[var] = PseudoNetCDFVariable(
